@@ -1,0 +1,38 @@
+//go:build verif
+
+// Verification hooks (build tag verif) for property C07: the merge of two stored statistics blocks as streaming
+// compaction performs it (IntegerPreAgg.merge / FloatPreAgg.merge). No behaviour of its own.
+package immutable
+
+import (
+	"fmt"
+	"math"
+)
+
+// VerifPreAggMerge merges statistics b into statistics a with the real merge of the given kind (VerifPreAggInt or
+// VerifPreAggFloat); fields in the order min, max, minTime, maxTime, sum, count.
+func VerifPreAggMerge(kind int, a, b [6]uint64) ([6]uint64, error) {
+	switch kind {
+	case VerifPreAggInt:
+		mk := func(f [6]uint64) *IntegerPreAgg {
+			m := NewIntegerPreAgg()
+			m.values[minIndex], m.values[maxIndex] = int64(f[0]), int64(f[1])
+			m.values[minTIndex], m.values[maxTIndex] = int64(f[2]), int64(f[3])
+			m.values[sumIndex], m.values[countIndex] = int64(f[4]), int64(f[5])
+			return m
+		}
+		m, o := mk(a), mk(b)
+		m.merge(o)
+		return [6]uint64{uint64(m.values[minIndex]), uint64(m.values[maxIndex]), uint64(m.values[minTIndex]), uint64(m.values[maxTIndex]),
+			uint64(m.values[sumIndex]), uint64(m.values[countIndex])}, nil
+	case VerifPreAggFloat:
+		mk := func(f [6]uint64) *FloatPreAgg {
+			return &FloatPreAgg{minV: math.Float64frombits(f[0]), maxV: math.Float64frombits(f[1]), minTime: int64(f[2]), maxTime: int64(f[3]),
+				sumV: math.Float64frombits(f[4]), countV: int64(f[5])}
+		}
+		m, o := mk(a), mk(b)
+		m.merge(o)
+		return [6]uint64{math.Float64bits(m.minV), math.Float64bits(m.maxV), uint64(m.minTime), uint64(m.maxTime), math.Float64bits(m.sumV), uint64(m.countV)}, nil
+	}
+	return [6]uint64{}, fmt.Errorf("kind %d", kind)
+}
